@@ -33,6 +33,18 @@ REQUIRED_FAST = [
     "Pixman.Props.C08Fast.bilinear_scanline_coords_partial",
 ]
 
+REQUIRED_LOOPS = [
+    "Pixman.Props.C08Loops.fast_bilinear_cover_cached_eq",
+    "Pixman.Props.C08Loops.coverCachedRows_eq",
+    "Pixman.Props.C08Loops.tileSplit_exact",
+    "Pixman.Props.C08Loops.blt_rotated90_tiled_eq",
+    "Pixman.Props.C08Loops.blt_rotated270_tiled_eq",
+    "Pixman.Props.C08Loops.bilinear_pad_row_taps",
+    "Pixman.Props.C08Loops.bilinear_none_row_taps",
+    "Pixman.Props.C08Loops.bilinear_zones",
+    "Pixman.Props.C08Loops.bilinear_vertical_spec",
+]
+
 REQUIRED = [
     "Pixman.Props.C08.repeat_spec",
     "Pixman.Props.C08.repeat_in_range",
@@ -288,7 +300,8 @@ def report(ctx, findings, limit=10):
 
 
 def run(ctx):
-    broken = ctx.lean_obligations("Pixman.Props.C08", REQUIRED + REQUIRED_FAST, extra_modules=["Pixman.Props.C08Fast"])
+    broken = ctx.lean_obligations("Pixman.Props.C08", REQUIRED + REQUIRED_FAST + REQUIRED_LOOPS + ["Pixman.Props.C02Cover.fast_bilinear_cover_eq"],
+                                  extra_modules=["Pixman.Props.C08Fast", "Pixman.Props.C02Cover", "Pixman.Props.C08Loops"])
     quick = ctx.tier == "quick"
     findings = run_streams(ctx, 8000 if quick else 40000, 16 if quick else 48)
     report(ctx, findings)
